@@ -546,8 +546,12 @@ def _calculate_dist_postselection_probability(
         probabilities = np.abs(interferometer[postselect_modes, input_mode]) ** 2
 
         for _ in range(multiplicity):
-            multiply_by_linear_truncated(
-                polynomial, 1.0 - probabilities.sum(), probabilities, out=polynomial
+            # NOTE: `out` must not alias the input polynomial.
+            polynomial = multiply_by_linear_truncated(
+                polynomial,
+                1.0 - probabilities.sum(),
+                probabilities,
+                out=np.empty_like(polynomial),
             )
 
     return polynomial[tuple(postselect_photons)]
